@@ -49,11 +49,18 @@ def run(tier):
         for lib in libs:
             if lib["language"] != "c++" or nlib >= (160 if thorough else 3):
                 continue
-            cs = libgen.cases_of(lib, set(K.FROWS), set(K.FRESULTS))
+            cs = libgen.cases_of(libgen.without_cfi_conflict(lib), set(K.FROWS), set(K.FRESULTS))
             if not cs:
                 continue
             configs.append(("libgen%d" % nlib, libgen.driver_options(lib), [], cs, lib["class"]))
             nlib += 1
+        # the wide member of the domain (specs/LibGenPairs.tla): every pairing of two parameter rows, every result
+        # row with every parameter row -- with and without F_CFI
+        wide = libgen.cases_of(libgen.wide_library(), set(K.FROWS), set(K.FRESULTS))
+        configs.append(("wide", {}, [], wide, True))
+        # (F_CFI: without the functions of the known finding C05 shroud:Error_with_template -- Shroud stops on them)
+        wl = libgen.without_cfi_conflict(libgen.wide_library(F_CFI=True))
+        configs.append(("wide-cfi", {"F_CFI": True}, [], libgen.cases_of(wl, set(K.FROWS), set(K.FRESULTS)), True))
         traces, labels = [], []
         with common.scratch("c01-") as base:
             def one(cfg):
